@@ -27,6 +27,11 @@ EFFECTS = [G + 'write_confirm_active_pdu', G + 'write_client_finalize']
 
 
 def variant_of(e):
+    for _ in range(4):
+        p = peel_payload(e)
+        if p is e:
+            break
+        e = p
     e = unwrap_cast(e)
     if e[0] == 'agg':
         return e[2]
@@ -36,15 +41,18 @@ def variant_of(e):
 def state_test(st, P):
     """value of the entry test on self.state on this path -> variant name"""
     names = {d: n for n, d in P.enum_variants(STATE)}
+    seen = None
     for ev in path_branches(st):
         d = strip(ev[2])
         if d[0] == 'discr':
             x = d[1]
             if x[0] == 'field' and x[2] == 'state':
+                # the most specific test on the path decides (`if let Data = self.state {..}` followed by a `match self.state`)
                 if ev[3] is None:
-                    return 'otherwise'
-                return names.get(ev[3], '?%s' % ev[3])
-    return None
+                    seen = seen or 'otherwise'
+                else:
+                    return names.get(ev[3], '?%s' % ev[3])
+    return seen
 
 
 def cmp_events(st, P=None):
@@ -180,7 +188,7 @@ def run(ctx):
         ctx.floor('R12.1b', 'Ok(true) paths of %s' % rname, n_true, 1)
 
     # ---- R12.2b callback only through read_fast_path in Data ----------------------------------------
-    fp_callers = {P.key_of(c.body) for c in P.callers.get(G + 'read_fast_path', [])}
+    fp_callers = P.caller_fns(G + 'read_fast_path')
     ctx.check(fp_callers == {READ}, 'R12.2', 'fastpath:callers', 'read_fast_path is called only from global::Client::read', '',
               'read_fast_path has callers %s' % sorted(fp_callers))
     # the callback parameter of read is forwarded only to read_fast_path
@@ -190,7 +198,7 @@ def run(ctx):
               'global::Client::read uses the application callback outside read_fast_path: %s' % [s.get('call') for s in cb_uses])
     eff_callers = set()
     for e in EFFECTS:
-        eff_callers |= {P.key_of(c.body) for c in P.callers.get(e, [])}
+        eff_callers |= P.caller_fns(e)
     ctx.check(eff_callers == {READ}, 'R12.2', 'effects:callers', 'confirm-active / finalize are sent only from global::Client::read', '',
               'confirm-active/finalize have callers %s' % sorted(eff_callers))
 
@@ -224,6 +232,15 @@ def run(ctx):
         if v[0] == 'agg' and v[2] == 'Ok':
             n_forgive += 1
             kinds = [ev[3] for ev in path_branches(st) if strip(ev[2])[0] == 'discr' and has_call(strip(ev[2]), 'model::error::RdpError::kind')]
+            # the guard form: `Err(RdpError(ref e)) if e.kind() == RdpErrorKind::InvalidAutomata => Ok(())`
+            for ev in path_branches(st):
+                d = strip(ev[2])
+                if d[0] == 'call' and re.search(r'PartialEq(<.*>)?>?::(ne|eq)$', d[1]) and len(d[3]) == 2:
+                    a, b_ = resolve(st, d[3][0]), resolve(st, d[3][1])
+                    if has_call(a, 'model::error::RdpError::kind') or has_call(b_, 'model::error::RdpError::kind'):
+                        other = variant_of(b_ if has_call(a, 'model::error::RdpError::kind') else a)
+                        equal = branch_truth(ev) != d[1].endswith('ne')
+                        kinds.append(kd.get(other, 'unknown') if equal else 'not:%s' % other)
             ctx.check(kinds == [kd['InvalidAutomata']], 'R12.3', 'try_write:forgive',
                       'try_write turns an error into Ok only for kind InvalidAutomata', tw.where(),
                       'try_write swallows an error whose kind discriminant is %s (only InvalidAutomata=%s may be dropped)' % (kinds, kd['InvalidAutomata']))
